@@ -96,14 +96,23 @@ the text must have, and the harness compares it with the AST Python's `ast` read
 real text (after the short-hand replacements `∇²c -> laplace(c)`, `|∇c|² ->
 gradient_squared(c)`, `c³ -> c**3`). -/
 
+/-- a printed factor: `expr_prod` branches on the ACTUAL value (`factor == 0`, `== 1`, `== -1`)
+but writes the PRINTED one (`%g`, six significant digits) -/
+structure Fac where
+  actual : Rat
+  printed : Rat
+
+/-- a factor that prints exactly -/
+def Fac.exact (f : Rat) : Fac := ⟨f, f⟩
+
 /-- `expr_prod`: factor 0 gives "0", 1 the expression, -1 its negative, anything else
 `factor * expression` (Python reads a negative literal factor as a unary minus) -/
-def exprProd (f : Rat) (e : Expr) : Expr :=
-  if f = 0 then .num 0
-  else if f = 1 then e
-  else if f = -1 then .neg e
-  else if f < 0 then .mul (.neg (.num (-f))) e
-  else .mul (.num f) e
+def exprProd (f : Fac) (e : Expr) : Expr :=
+  if f.actual = 0 then .num 0
+  else if f.actual = 1 then e
+  else if f.actual = -1 then .neg e
+  else if f.printed < 0 then .mul (.neg (.num (-f.printed))) e
+  else .mul (.num f.printed) e
 
 def vC : Expr := .var "c"
 def vU : Expr := .var "u"
@@ -112,38 +121,38 @@ def lapE (e : Expr) : Expr := .call1 "laplace" e
 def gradsqE (e : Expr) : Expr := .call1 "gradient_squared" e
 
 /-- `DiffusionPDE.expression`: `D * ∇²(c)` -/
-def diffusionExpr (D : Rat) : Expr := exprProd D (lapE vC)
+def diffusionExpr (D : Fac) : Expr := exprProd D (lapE vC)
 
 /-- `AllenCahnPDE.expression`: `γ * ∇²c - c³ + c`, wrapped in `mobility * (...)` unless the
 mobility is (close to) one; `mobIsOne` is the outcome of `np.isclose(mobility, 1)` -/
-def allenCahnExpr (γ mob : Rat) (mobIsOne : Bool) : Expr :=
+def allenCahnExpr (γ mob : Fac) (mobIsOne : Bool) : Expr :=
   let e := Expr.add (.sub (exprProd γ (lapE vC)) (.powI vC 3)) vC
   if mobIsOne then e else exprProd mob e
 
 /-- `CahnHilliardPDE.expression`: `∇²(c³ - c - γ * ∇²c)` -/
-def cahnHilliardExpr (γ : Rat) : Expr :=
+def cahnHilliardExpr (γ : Fac) : Expr :=
   lapE (.sub (.sub (.powI vC 3) vC) (exprProd γ (lapE vC)))
 
 /-- `KPZInterfacePDE.expression`: `ν * ∇²c + λ * |∇c|²` -/
-def kpzExpr (ν lam : Rat) : Expr := .add (exprProd ν (lapE vC)) (exprProd lam (gradsqE vC))
+def kpzExpr (ν lam : Fac) : Expr := .add (exprProd ν (lapE vC)) (exprProd lam (gradsqE vC))
 
 /-- `KuramotoSivashinskyPDE.expression`: `-∇²(c + ν * ∇²c) - 0.5 * |∇c|²` -/
-def ksExpr (ν : Rat) : Expr :=
+def ksExpr (ν : Fac) : Expr :=
   .sub (.neg (lapE (.add vC (exprProd ν (lapE vC))))) (.mul (.num (1/2)) (gradsqE vC))
 
 /-- `SwiftHohenbergPDE.expression`:
 `(ε - kc2²) * c - c³ + δ * c² - ∇²(2 kc2 * c + ∇²c)`; the three printed factors are
 arguments because each is rounded on its own -/
-def swiftHohenbergExpr (a δ twoKc2 : Rat) : Expr :=
+def swiftHohenbergExpr (a δ twoKc2 : Fac) : Expr :=
   .sub (.add (.sub (exprProd a vC) (.powI vC 3)) (exprProd δ (.powI vC 2)))
     (lapE (.add (exprProd twoKc2 vC) (lapE vC)))
 
 /-- `WavePDE.expressions`: `{"u": "v", "v": speed² * ∇²u}` -/
-def waveExprs (speed2 : Rat) : Expr × Expr := (vV, exprProd speed2 (lapE vU))
+def waveExprs (speed2 : Fac) : Expr × Expr := (vV, exprProd speed2 (lapE vU))
 
 /-- `KleinGordonPDE.expressions`: `{"u": "v", "v": speed² * ∇²u - mass² * u}` (without the
 mass term when `mass == 0`) -/
-def kleinGordonExprs (speed2 mass2 : Rat) (massIsZero : Bool) : Expr × Expr :=
+def kleinGordonExprs (speed2 mass2 : Fac) (massIsZero : Bool) : Expr × Expr :=
   (vV, if massIsZero then exprProd speed2 (lapE vU)
        else .sub (exprProd speed2 (lapE vU)) (exprProd mass2 vU))
 
